@@ -3102,7 +3102,9 @@ let wigm_defeat a cfg =
   match low_candidates a s with
   | Some p ->
     let (lv, lows) = p in
-    if (&&) (a.eqv lv v2) cfg.cf_batch_zero
+    if (&&) ((&&) (a.eqv lv v2) cfg.cf_batch_zero)
+         (Z.leb (seats_left a cfg s)
+           (Z.sub (nlen (hopefuls a s)) (nlen lows)))
     then let s1 =
            fold_left (fun s0 c -> defeat a cfg c.cid "Defeat batch(zero)" s0)
              lows s
@@ -3482,7 +3484,11 @@ let mpls_find_defeats a cfg =
           then a.add0 s.surplus uv0
           else s.surplus) s
      in
-     set_batch a s (map (fun c -> c.cid) (app und losers))
+     let losers' =
+       filter (fun c -> negb (existsb (fun u -> Z.eqb u.cid c.cid) und))
+         losers
+     in
+     set_batch a s (map (fun c -> c.cid) (app und losers'))
    | Raise e -> set_crash a s e))
 
 (** val mpls_defeat_batch : arith -> config -> est -> est **)
@@ -4446,8 +4452,12 @@ let count_cmd a cfg r =
 
 let post_check a cfg s =
   let ne = nlen (electeds a s) in
+  let no_und = (=) cfg.cf_rule "mpls" in
+  let electable =
+    filter (fun c -> negb ((&&) no_und c.cundecl)) (eligibles a s)
+  in
   (||) (Z.eqb ne cfg.cf_nseats)
-    ((&&) (Z.ltb ne cfg.cf_nseats) (Z.eqb ne (nlen (eligibles a s))))
+    ((&&) (Z.ltb ne cfg.cf_nseats) (Z.eqb ne (nlen electable)))
 
 (** val run_count :
     arith -> config -> Big_int_Z.big_int -> rule -> profile -> outcome **)
